@@ -16,7 +16,8 @@ CLAIM = {
             "caps.kitty_keyboard, empty output for Image/ImageErase; variant field types are those the holes assume; every path is a "
             "concatenation of complete control sequences with no non-I/O exit inside one; DecMode discriminants equal xterm's mode numbers. "
             "Not decided: the SGR parameter table (C06; only CSI..m framing and ';' joining), colour reduction (C20), absence of panics on "
-            "extreme values (clause (b), hook `obligations` left for the abstract interpreter), control bytes inside Title/Char/Raw payloads, "
+            "extreme values (clause (b), hook `obligations` left for the abstract interpreter), control bytes in the ground-state payloads of "
+            "Char/Raw (values inside OSC/DCS strings are classified: numeric, hex, trusted Display or control-filtered characters), "
             "what a real terminal does beyond the reference templates.",
     "technique": "output-template extraction from the syntax tree (template language per path), comparison with hand-written reference "
                  "templates over all branch valuations, ECMA-48 framing automaton on templates, enum discriminant table",
@@ -59,6 +60,10 @@ def field_type(prog, refs, variant, path):
         if i + 1 < len(parts):
             a = prog.adts.get(ty)
             if a is None:
+                m = re.match(r"^std::option::Option<(.*)>$", ty)
+                if m and parts[i + 1] == "0":
+                    fields = {"0": m.group(1)}
+                    continue
                 return None
             if a["kind"] == "Struct":
                 fields = {f["name"]: f["ty"] for f in a["variants"][0]["fields"]}
@@ -132,6 +137,108 @@ def check_complete(t, where, report):
     return n
 
 
+HEX_SPEC = re.compile(r"^0?\d*[xXob]$")
+
+
+def _sanitising_filter(node):
+    """iterator expression contains `.filter(|c| !c.is_control())` (any parameter name, `&c`/`*c` tolerated)"""
+    hit = [False]
+
+    def f(n, parents):
+        if n.get("k") == "mcall" and n["m"] == "filter" and len(n["args"]) == 1 and n["args"][0].get("k") == "closure":
+            body = n["args"][0]["body"]
+            if re.match(r"^!\w+\.is_control\(\)$", T.canon(body)):
+                hit[0] = True
+    from ..src import walk
+    walk(node, f)
+    return hit[0]
+
+
+def payload_class(prog, refdoc, variant, atom, loops):
+    """('safe'|'string'|'unknown', reason) for a hole written inside a control string"""
+    sp = refdoc["string_payload"]
+    if isinstance(atom, T.Hole) and HEX_SPEC.match(atom.spec or ""):
+        return "safe", "radix format of an integer writes digits only"
+    expr = atom.expr
+    kinds = []
+    for m in re.finditer(r"#(?:item|index|pair)(\d*)", expr):
+        depth = int(m.group(1) or "1")
+        lp = loops[depth - 1] if 0 < depth <= len(loops) else None
+        if m.group(0).startswith("#index"):
+            kinds.append(("safe", "loop index"))
+        elif lp is None or getattr(lp, "iter_node", None) is None:
+            kinds.append(("unknown", "loop item of an unknown loop"))
+        else:
+            it = T.canon(lp.iter_node)
+            if re.search(r"\.(as_bytes|bytes)\(\)", it) and isinstance(atom, T.Hole):
+                kinds.append(("safe", "u8 printed as a number"))
+            elif re.search(r"\.chars\(\)", it):
+                kinds.append(("safe", "characters filtered by !is_control()") if _sanitising_filter(lp.iter_node) else ("string", "characters of a string"))
+            else:
+                kinds.append(("unknown", "loop item of `%s`" % it))
+    for m in re.finditer(r"\$(?:\.\w+)+", expr):
+        path = m.group(0)
+        ty = None
+        parts = path.split(".")
+        # longest prefix that is a declared field path (method names may follow)
+        for n in range(len(parts), 1, -1):
+            ty = field_type(prog, refdoc, variant, ".".join(parts[:n]))
+            if ty is not None:
+                rest = parts[n:]
+                break
+        if ty is None:
+            kinds.append(("unknown", "type of %s" % path))
+        elif ty in sp["numeric"] or (prog.adts.get(ty, {}).get("kind") == "Enum" and re.search(r"\bas (%s)\b" % "|".join(T.INT_TYPES), expr)):
+            kinds.append(("safe", "%s is numeric" % ty))
+        elif ty in sp["safe_display"]:
+            kinds.append(("safe", sp["safe_display"][ty]))
+        elif ty in sp["string_like"]:
+            kinds.append(("string", "%s: %s" % (path, ty)))
+        else:
+            kinds.append(("unknown", "%s: %s" % (path, ty)))
+    if not kinds:
+        if re.match(r"^[A-Za-z_][\w:]*$", expr) and expr.split("::")[-1].isupper():
+            return "safe", "named constant"
+        return "unknown", "expression `%s`" % expr
+    for cls in ("string", "unknown", "safe"):
+        for k, why in kinds:
+            if k == cls:
+                return k, why
+    return "unknown", expr
+
+
+def string_payloads(t, found, loops=()):
+    """(sequence kind, atom, enclosing loops) for every hole/raw written inside a control string, any valuation"""
+    for val in T.valuations([t]):
+        try:
+            atoms = T.evaluate(t, val)
+        except T.Undefined:
+            continue
+        nested = []
+        try:
+            seqs = T.split_sequences(atoms, nested_ground=lambda a: nested.append(a))
+        except T.Malformed:
+            continue          # reported by COMPLETE
+        for a in nested:
+            for b in ([a.sep, a.item] if isinstance(a, T.Join) else [a.body]):
+                string_payloads(b, found, loops + (a.star if isinstance(a, T.Join) else a,))
+        for sq in seqs:
+            if sq.kind not in ("OSC", "DCS", "APC", "PM", "SOS"):
+                continue
+
+            def visit(parts, lps):
+                for p in parts:
+                    if isinstance(p, (T.Hole, T.Raw)):
+                        found.append((sq.kind, p, lps))
+                    elif isinstance(p, T.Join):
+                        inner = lps + (p.star,)
+                        visit([x for x in T.atoms_in(p.sep, into_loops=False)], inner)
+                        visit([x for x in T.atoms_in(p.item, into_loops=False)], inner)
+                    elif isinstance(p, T.Star):
+                        visit([x for x in T.atoms_in(p.body, into_loops=False)], lps + (p,))
+            visit(sq.parts, loops)
+
+
 def run(ctx):
     src, prog = ctx.src, ctx.prog
     ctx.explanation = (
@@ -143,13 +250,16 @@ def run(ctx):
         "control sequences with no non-I/O failure exit inside a sequence; DecMode discriminants equal the xterm mode numbers. "
         "NOT decided: the SGR parameter table of Face/FaceModify (C06; only CSI..m framing and ';' joining here), colour depth reduction "
         "(C20), absence of panics on extreme values (part (b), pending the abstract interpreter), behaviour of a real terminal beyond "
-        "the reference templates, control bytes inside Title/Char/Raw payloads.")
+        "the reference templates, control bytes inside the ground-state payloads of Char/Raw. Values written inside OSC/DCS strings are "
+        "classified (STRING-PAYLOAD): numeric / hex / trusted Display / control-filtered characters pass, raw strings are reported.")
     ctx.assume("I/O errors of the sink abort the command: Err paths of write!/write_all are not part of the template language")
     ctx.assume("functions called inside hole expressions are pure; Display of usize/i32/char/String/RGBA is the std/rasterize one")
     ctx.trust("refs/ecma48_cmds.json", "reference templates written by hand from ECMA-48 5th ed., xterm ctlseqs, kitty keyboard protocol")
 
     ctx.rule("TEMPLATE", "encode arm template == reference template (per TerminalCommand variant, every branch valuation)", floor=N_VARIANTS)
     ctx.rule("COMPLETE", "every path of an encode arm is a concatenation of complete control sequences (no exit inside a sequence)", floor=N_VARIANTS)
+    ctx.rule("STRING-PAYLOAD", "a value written inside an OSC/DCS/APC string cannot contain bytes that end or corrupt the string (numeric, hex, "
+                               "trusted Display, or characters filtered by !is_control())", floor=4)
     ctx.rule("DECMODE", "DecMode discriminants == xterm DECSET/DECRST mode numbers; KEYBOARD_LEVEL within the kitty flag range", floor=N_DECMODES + 1)
 
     try:
@@ -256,11 +366,34 @@ def run(ctx):
             nval = 0
             ctx.violation("COMPLETE", v, "unsupported-construct", str(e), sites=sites)
         ctx.instance("COMPLETE", {"variant": v, "valuations": nval})
-        # informational: string-typed payloads inside control strings are passed through unescaped
-        for a in T.atoms_in(t):
-            if isinstance(a, T.Hole) and row is not None and row.get("types", {}).get(a.expr) == "std::string::String":
-                ctx.note("%s writes the String %s unescaped inside a control string: a payload containing BEL/ESC ends the sequence early "
-                         "(not reported: payload sanitising is outside the reference templates)" % (v, a.expr))
+        # values written inside control strings
+        found = []
+        try:
+            string_payloads(t, found)
+        except T.Unsupported as e:
+            ctx.violation("STRING-PAYLOAD", v, "unsupported-construct", str(e), sites=sites)
+        seen_p = set()
+        for kind, a, lps in found:
+            key = (kind, a.text())
+            if key in seen_p:
+                continue
+            seen_p.add(key)
+            cls, why = payload_class(prog, refdoc, v, a, lps)
+            ctx.instance("STRING-PAYLOAD", {"variant": v, "in": kind, "hole": a.text(), "class": cls, "why": why})
+            ln = ["%s:%s" % (file, a.line)] if getattr(a, "line", None) else sites
+            if cls == "string":
+                ctx.violation("STRING-PAYLOAD", v, "unescaped-string-in-%s" % kind,
+                              "%s writes %s (%s) unescaped inside an %s string: a payload containing BEL, ESC or another control character ends or "
+                              "corrupts the sequence, so the command stream does not parse back into this command (%s)"
+                              % (v, a.text(), why, kind, refdoc["string_payload"]["cite"]), sites=ln)
+            elif cls == "unknown":
+                ctx.violation("STRING-PAYLOAD", v, "unclassified-payload-in-%s" % kind,
+                              "%s writes %s inside an %s string and its byte range could not be classified (%s)" % (v, a.text(), kind, why), sites=ln)
+            elif "trusted" in why:
+                ctx.trust("Display of rasterize::RGBA", why)
+        if any(isinstance(a, (T.Hole, T.Raw)) for a in T.atoms_in(t)) and row is not None and v in ("Char", "Raw"):
+            ctx.note("%s passes its payload through in ground state: C0 controls are legitimate data-stream content there and Raw is an explicit "
+                     "escape hatch, so no escaping is required by the reference" % v)
     for name in rows:
         if name not in variants:
             ctx.note("reference row %s has no variant in the repository (constrains nothing)" % name)
